@@ -121,8 +121,9 @@ def interpret(t, prog, orm, E, note):
     def get(ename, o):
         if (ename, o) not in objs: objs[(ename, o)] = E[ename][o]
         return objs[(ename, o)]
-    for op in prog['ops']:
+    for i, op in enumerate(prog['ops']):
         k = op[0]
+        note('op', i)
         if k == 'attr':
             _, ename, o, attr = op
             obj = get(ename, o)
@@ -214,6 +215,24 @@ class View(object):
                     if va != vb and (table, c) not in VOLATILE_COLUMNS: return False
         return True
 
+def op_shape(op):
+    """shape of an operation for signatures: kind + attribute/collection name, no object ids"""
+    k = op[0]
+    if k in ('attr', 'items', 'len', 'count', 'empty', 'in', 'cload'): return '%s:%s' % (k, op[3])
+    if k == 'prefetch': return 'prefetch:%s' % op[2]
+    if k == 'load': return 'load' + (':' + op[3] if len(op) > 3 else '')
+    return '%s:%s' % (k, op[1])
+
+def route(v, t, step_a, idx_a, idx_b):
+    """shapes of the operations the reader executed between two observations (note indexes)"""
+    ops = v.progs[t]['ops']
+    seq = [d[1] for _, d in v.notes[t][idx_a + 1:idx_b] if d[0] == 'op']
+    return ','.join(op_shape(ops[i]) for i in seq[:-1]) or 'none'
+
+def failing_op(v, t):
+    seq = [d[1] for _, d in v.notes[t] if d[0] == 'op']
+    return op_shape(v.progs[t]['ops'][seq[-1]]) if seq else 'start'
+
 def is_volatile_key(key):
     return key.endswith('.vol') or key.endswith('.vitems')
 
@@ -225,18 +244,19 @@ def judge(v, counters):
         name = v.progs[t]['name']
         r = v.res[t]
         if r['status'] == 'exc' and not r['pony']:
-            out.append(('unexpected-exception|%s|%s' % (name, r['cls']), 'T%d died with %s: %s' % (t, r['cls'], r['msg'])))
+            out.append(('unexpected-exception|%s|at=%s' % (r['cls'], failing_op(v, t)),
+                        'T%d (%s) died with %s: %s' % (t, name, r['cls'], r['msg'])))
         elif r['status'] == 'engine': out.append(('engine-result|%s' % r['cls'], repr(r)))
         if r['status'] == 'exc' and r['cls'] == 'UnrepeatableReadError':
             bump('UnrepeatableReadError')
             others = [j for j in v.change_steps if v.x.trace[j][0] != t]
             if not [j for j in others if not v.volatile_only_change(j)]:
-                out.append(('control-raised|%s|%s' % (name, 'volatile-only change' if others else 'no concurrent commit'),
+                out.append(('control-raised|at=%s|%s' % (failing_op(v, t), 'volatile-only change' if others else 'no concurrent commit'),
                             'T%d failed with UnrepeatableReadError (%s) although other sessions committed only volatile data' % (t, r['msg'])))
         if r['status'] == 'exc' and r['cls'] == 'OptimisticCheckError': bump('OptimisticCheckError')
         # the oracle proper: equal observations per key
-        full, first = {}, {}
-        for step, d in v.notes[t]:
+        full, first, at = {}, {}, {}
+        for idx, (step, d) in enumerate(v.notes[t]):
             if d[0] != 'obs': continue
             key, val, how = d[1], d[2], (d[3] if len(d) > 3 else 'attr')
             vol = is_volatile_key(key)
@@ -245,22 +265,24 @@ def judge(v, counters):
                     bump('volatile_reobserved' if vol else 'attributes_reobserved')
                     if first[key] != val:
                         if vol: bump('volatile_changed_silently')
-                        else: out.append(('value-changed-silently|%s|%s' % (name, key.split('.')[-1]),
-                                          'T%d observed %s = %r and later %r without an error' % (t, key, first[key], val)))
-                else: first[key] = val
+                        else: out.append(('value-changed-silently|%s|via=%s' % (key.split('.')[-1], route(v, t, step, at[key], idx)),
+                                          'T%d (%s) observed %s = %r and later %r without an error' % (t, name, key, first[key], val)))
+                else: first[key] = val; at[key] = idx
                 continue
             base = full.get(key)
             if how == 'full' or (how == 'len' and base is None):
                 if how == 'len':
-                    full[key] = ('len', val); continue
+                    full[key] = ('len', val); at[key] = idx; continue
                 if base is not None:
                     bump('volatile_reobserved' if vol else 'collections_reobserved')
                     same = (base[1] == val) if base[0] == 'items' else (base[1] == len(val))
                     if not same:
                         if vol: bump('volatile_changed_silently')
-                        else: out.append(('collection-changed-silently|%s|%s' % (name, key.split('.')[-1]),
-                                          'T%d observed %s = %r and later %r without an error' % (t, key, base[1], val)))
-                full[key] = ('items', val)
+                        else:
+                            how2 = 'size' if base[0] != 'items' else '+'.join(w_ for w_, c_ in (('appeared', set(val) - set(base[1])), ('disappeared', set(base[1]) - set(val))) if c_)
+                            out.append(('collection-changed-silently|%s|via=%s|%s' % (key.split('.')[-1], route(v, t, step, at[key], idx), how2),
+                                        'T%d (%s) observed %s = %r and later %r without an error' % (t, name, key, base[1], val)))
+                full[key] = ('items', val); at[key] = idx
                 continue
             if base is None: continue            # computed by the database before any full load: a different read
             n = len(base[1]) if base[0] == 'items' else base[1]
@@ -271,8 +293,8 @@ def judge(v, counters):
             bump('volatile_reobserved' if vol else 'collections_reobserved')
             if val != expect:
                 if vol: bump('volatile_changed_silently')
-                else: out.append(('collection-changed-silently|%s|%s:%s' % (name, key.split('.')[-1], how if isinstance(how, str) else 'in'),
-                                  'T%d observed %s fully as %r; later %r gave %r' % (t, key, base[1], how, val)))
+                else: out.append(('collection-changed-silently|%s|via=%s|%s' % (key.split('.')[-1], route(v, t, step, at[key], idx), how if isinstance(how, str) else 'in'),
+                                  'T%d (%s) observed %s fully as %r; later %r gave %r' % (t, name, key, base[1], how, val)))
     # committed rows change only in commits of sessions that end successfully (writers are plain sessions)
     for j in v.change_steps:
         tt, lab = v.x.trace[j]
@@ -313,7 +335,7 @@ def run(ctx):
     ctx.guard('volatile control group re-observed', c.get('volatile_reobserved', 0), 200)
     ctx.guard('volatile control group changed silently (no error)', c.get('volatile_changed_silently', 0), 10)
     ctx.guard('executions with a committed concurrent change', c.get('executions_with_a_committed_change', 0), 1000)
-    ctx.guard('program pairs with more than one distinct outcome', agg['per_kind']['pair']['tuples_with_more_than_one_outcome'], 100)
+    ctx.guard('program pairs with more than one distinct outcome', agg['per_kind']['pair']['tuples_with_more_than_one_outcome'], 50)
     ctx.guard('all-points cross-check tuples', c.get('xcheck_tuples_all_points_outcomes_contained', 0), 2)
     out = L.coverage(ctx, agg)
     ctx.cov.update(readers=len(READERS), writers=len(WRITERS),
